@@ -616,6 +616,138 @@ func TestC06RespawnStorm(t *testing.T) {
 	})
 }
 
+// TestC06ReplaceThenKill: a supervisor replaces a named child inside ONE handler - kill it, wait until its
+// path is released, spawn the same name - so the successor is registered while the predecessor's OnKilled is
+// still queued in the supervisor's mailbox. Later the supervisor (or its parent) is killed: the successor is
+// a descendant like any other.
+func TestC06ReplaceThenKill(t *testing.T) {
+	rapid.Check(t, func(rt *rapid.T) {
+		nested := rapid.Bool().Draw(rt, "nested")
+		rounds := rapid.IntRange(1, 3).Draw(rt, "rounds")
+		poisonChild := rapid.Bool().Draw(rt, "poisonChild")
+		poisonTop := rapid.Bool().Draw(rt, "poisonTop")
+		kids := rapid.IntRange(0, 2).Draw(rt, "grandchildren")
+		sameHandler := rapid.IntRange(0, 3).Draw(rt, "sameHandler") > 0
+		killTop := nested && rapid.Bool().Draw(rt, "killGrandparent")
+		vt.SetCase(map[string]any{"test": "TestC06ReplaceThenKill", "rapid_seed": os.Getenv("VERIF_RSEED"), "nested": nested, "rounds": rounds, "poisonChild": poisonChild, "poisonTop": poisonTop, "grandchildren": kids, "sameHandler": sameHandler, "killGrandparent": killTop})
+		var verd *verdict
+		res := vt.Run(t, func() {
+			w := world.New(world.Options{})
+			defer w.Close()
+			p := "p"
+			if nested {
+				_, _ = w.Spawn(world.Spec{Name: "g"})
+				ps := world.Spec{Name: "p"}
+				w.Tell("g", "", 0, []world.Step{{Op: "spawn", Spec: &ps}})
+				p = "g/p"
+			} else {
+				_, _ = w.Spawn(world.Spec{Name: "p"})
+			}
+			vt.Settle()
+			child := world.Spec{Name: "c"}
+			for k := 0; k < kids; k++ {
+				gc := world.Spec{Name: fmt.Sprintf("k%d", k)}
+				child.OnLaunch = append(child.OnLaunch, world.Step{Op: "spawn", Spec: &gc})
+			}
+			w.Tell(p, "", 0, []world.Step{{Op: "spawn", Spec: &child}})
+			vt.Settle()
+			for r := 0; r < rounds; r++ {
+				if sameHandler {
+					w.Tell(p, "", 0, []world.Step{{Op: "kill", To: p + "/c", Via: "parse", B: poisonChild}, {Op: "waitgone", To: p + "/c", Via: "parse"}, {Op: "spawn", Spec: &child}})
+					// the handler polls in steps of 1 ms of virtual time
+					vt.Advance(50 * time.Millisecond)
+				} else {
+					w.Tell(p, "", 0, []world.Step{{Op: "kill", To: p + "/c", Via: "parse", B: poisonChild}})
+					vt.Settle()
+					w.Tell(p, "", 0, []world.Step{{Op: "spawn", Spec: &child}})
+				}
+				vt.Settle()
+			}
+			for _, cl := range w.CallsCopy() {
+				if (cl.Op == "spawn:c" || cl.Op == "waitgone") && cl.Err != "" {
+					verd = &verdict{"C06/released|name-reuse", fmt.Sprintf("replacing the child inside the supervisor: %s failed: %s", cl.Op, cl.Err)}
+					return
+				}
+			}
+			top := p
+			if killTop {
+				top = "g"
+			}
+			w.Kill(top, "", poisonTop)
+			vt.Settle()
+			tr, obs := w.Snapshot()
+			per := world.PerActor(tr)
+			var left []string
+			for _, a := range w.Sys.VerifActors() {
+				if a.Path == "/"+top || isUnder(a.Path, "/"+top) {
+					left = append(left, a.Path)
+				}
+			}
+			sort.Strings(left)
+			if len(left) > 0 {
+				verd = &verdict{"C06/subtree-terminated|replaced-child", fmt.Sprintf("%s was killed and everything settled, but %v are still registered (the child was replaced %d times, same handler=%v); killed events in order: %s ; supervisor trace: %s ; child trace: %s ; calls: %v", top, left, rounds, sameHandler, killedOrder(obs), world.Fmt(tailN(per["/"+p], 14)), world.Fmt(tailN(per["/"+p+"/c"], 14)), w.CallsCopy())}
+				return
+			}
+			cp := "/" + p + "/c"
+			launches, owns, told := 0, 0, 0
+			for _, e := range per[cp] {
+				if e.Kind == "launch" {
+					launches++
+				}
+				if e.Kind == "killed:"+cp {
+					owns++
+				}
+			}
+			for _, e := range per["/"+p] {
+				if e.Kind == "killed:"+cp {
+					told++
+				}
+			}
+			if launches != rounds+1 || owns != launches {
+				verd = &verdict{"C06/subtree-terminated|replaced-child", fmt.Sprintf("%s had %d lives (expected %d), %d of them terminated; trace: %s", cp, launches, rounds+1, owns, world.Fmt(tailN(per[cp], 14)))}
+				return
+			}
+			if told != launches {
+				verd = &verdict{"C06/notified-once", fmt.Sprintf("%s had %d lives, its parent received %d OnKilled for it; parent trace: %s", cp, launches, told, world.Fmt(tailN(per["/"+p], 14)))}
+				return
+			}
+			// children first: the last ActorKilledEvent of the child precedes the one of its parent
+			lastC, lastP := -1, -1
+			for i, o := range obs {
+				if o.Type == "Killed" && o.Actor == cp {
+					lastC = i
+				}
+				if o.Type == "Killed" && o.Actor == "/"+p {
+					lastP = i
+				}
+			}
+			if lastC < 0 || lastP < 0 || lastC > lastP {
+				verd = &verdict{"C06/children-first", fmt.Sprintf("%s was reported terminated before (or without) its replaced child %s; order: %s", "/"+p, cp, killedOrder(obs))}
+			}
+		})
+		if verd == nil && res.Panic != nil {
+			if res.Deadlock {
+				verd = &verdict{"C06/bubble-deadlock", fmt.Sprintf("%v", res.Panic)}
+			} else {
+				verd = &verdict{"C06/harness-panic", fmt.Sprintf("%v\n%s", res.Panic, res.Stack)}
+			}
+		}
+		labels := []string{"replace-then-kill"}
+		if sameHandler {
+			labels = append(labels, "replaced-inside-one-handler")
+		}
+		vstat.Case(vstat.Hash("replace", nested, rounds, poisonChild, poisonTop, kids, sameHandler, killTop), sameHandler, labels, func() any {
+			return map[string]any{"nested": nested, "rounds": rounds, "poisonChild": poisonChild, "poisonTop": poisonTop, "grandchildren": kids, "sameHandler": sameHandler, "killGrandparent": killTop}
+		})
+		if verd != nil {
+			if vstat.Fail(verd.sig, verd.detail, nil) {
+				return
+			}
+			rt.Fatalf("VERIF-FAIL sig=%s :: %s", verd.sig, verd.detail)
+		}
+	})
+}
+
 func TestC06KillSubtree(t *testing.T) {
 	rapid.Check(t, func(rt *rapid.T) { check(t, rt.Fatalf, genCase(rt)) })
 }
